@@ -12,6 +12,9 @@ package io
 //   error      -> "" | "notExist" | "maxLinks" | "other:<text>"
 //   root node  -> cidIs: which canonical fresh build (pure basic / pure HAMT, sorted inserts) has the same CID
 //   HAMT DAG   -> shards: slot paths of all non-root shard nodes, vals: [name, slot path of its shard]
+//   other live objects -> others: per parked directory object its type, Links, Find of every name and whether
+//                 its root CID is still the one it had when it was parked; nodes: per retained root node its
+//                 listing and whether its CID is still the one it had when it was handed out
 //   hash       -> h: the first digits of murmur3-64(name), log2(width) bits each, MSB first
 //                 (computed here, independently of hamt/util.go)
 
@@ -59,7 +62,7 @@ type c15W struct {
 type c15Beh struct {
 	W   c15W       `json:"w"`
 	Cfg c15Cfg     `json:"cfg"`
-	Ops [][]string `json:"ops"` // ["A",name,target] | ["R",name,"-"] | ["L","-","-"]
+	Ops [][]string `json:"ops"` // ["A",name,target] | ["R",name,"-"] | ["L","-","-"] | ["F",via,"-"] | ["S",k,"-"]
 	Obs string     `json:"obs"` // "noeach": observe without ForEachLink (it rewrites link names inside the shard)
 }
 
@@ -311,25 +314,35 @@ func c15NewDir(ds ipld.DAGService, c c15Cfg) (Directory, error) {
 // c15Load builds a new directory object from the stored root node (fetched by CID, i.e. decoded
 // from its serialized form) and re-applies the non-persisted settings the way mfs does.
 func c15Load(ctx context.Context, ds ipld.DAGService, root ipld.Node, c c15Cfg) (Directory, error) {
-	if err := ds.Add(ctx, root); err != nil {
-		return nil, err
-	}
-	nd, err := ds.Get(ctx, root.Cid())
-	if err != nil {
-		return nil, err
+	d, _, err := c15LoadVia(ctx, ds, root, c, "store")
+	return d, err
+}
+
+// c15LoadVia: via "store" = the node decoded from the block store; via "node" = the very node object the
+// caller holds (what GetNode returned).  Also returns the node the directory was loaded from.
+func c15LoadVia(ctx context.Context, ds ipld.DAGService, root ipld.Node, c c15Cfg, via string) (Directory, ipld.Node, error) {
+	nd := root
+	if via != "node" {
+		if err := ds.Add(ctx, root); err != nil {
+			return nil, nil, err
+		}
+		var err error
+		if nd, err = ds.Get(ctx, root.Cid()); err != nil {
+			return nil, nil, err
+		}
 	}
 	d, err := NewDirectoryFromNode(ds, nd)
 	if err != nil {
-		return nil, err
+		return nil, nil, err
 	}
 	d.SetMaxLinks(c.MaxLinks)
 	d.SetMaxHAMTFanout(c.Width)
 	d.SetHAMTShardingSize(c.Thr)
 	d.SetSizeEstimationMode(c15EstMode(c.Est))
 	if c.Kind != "dynamic" {
-		return d.(*DynamicDirectory).Directory, nil
+		return d.(*DynamicDirectory).Directory, nd, nil
 	}
-	return d, nil
+	return d, nd, nil
 }
 
 func c15Inner(d Directory) Directory {
@@ -489,13 +502,107 @@ func c15Walk(ctx context.Context, ds ipld.DAGService, wd *c15World, nd ipld.Node
 // ---------------------------------------------------------------- one run
 
 type c15Run struct {
-	e   *c15Engine
-	wd  *c15World
-	c   c15Cfg
-	ds  ipld.DAGService
-	d   Directory
-	ent map[string]string // harness copy of what was asked for; used ONLY to pick the canonical builds
-	dead bool
+	e      *c15Engine
+	wd     *c15World
+	c      c15Cfg
+	ds     ipld.DAGService
+	d      Directory         // the directory object the calls go to
+	ent    map[string]string // harness copy of what was asked for; used ONLY to pick the canonical builds
+	parked []*c15Obj         // the other live directory objects (same order as `parked` in the spec)
+	nodes  []*c15Node        // root nodes the "caller" still holds (same order as `nodes` in the spec)
+	dead   bool
+}
+
+// a parked directory object: still referenced, re-observed after every step
+type c15Obj struct {
+	d    Directory
+	ent  map[string]string
+	cid0 string // its root CID when it was parked
+}
+
+// a retained root node (handed out by GetNode / decoded from the store, then passed to NewDirectoryFromNode)
+type c15Node struct {
+	nd   ipld.Node
+	cid0 string // its CID when it was handed out
+}
+
+func c15State(d Directory) M {
+	switch x := c15Inner(d).(type) {
+	case *BasicDirectory:
+		return M{"mode": "basic", "bk": M{"est": x.estimatedSize, "tl": x.totalLinks, "sc": 0},
+			"thr": x.hamtShardingSize, "maxLinks": x.maxLinks, "est": c15EstName(x.GetSizeEstimationMode())}
+	case *HAMTDirectory:
+		return M{"mode": "hamt", "bk": M{"est": 0, "tl": x.totalLinks, "sc": x.sizeChange},
+			"thr": x.hamtShardingSize, "maxLinks": x.maxLinks, "est": c15EstName(x.GetSizeEstimationMode())}
+	}
+	return M{"mode": "?"}
+}
+
+func (r *c15Run) findAll(d Directory) M {
+	find := M{}
+	for _, m := range r.wd.names {
+		nd, err := d.Find(r.e.ctx, r.wd.real[m])
+		switch {
+		case err == nil:
+			l, _ := ipld.MakeLink(nd)
+			find[m] = r.wd.target(nd.Cid(), l.Size)
+		case errors.Is(err, os.ErrNotExist):
+			find[m] = "-"
+		default:
+			find[m] = "!" + err.Error()
+		}
+	}
+	return find
+}
+
+func c15Same(now, then string) string {
+	if now == then {
+		return "same"
+	}
+	return "diff"
+}
+
+// observeOthers re-observes every parked directory object and every retained node.
+func (r *c15Run) observeOthers() (others []M, nodes []M) {
+	ctx := r.e.ctx
+	others, nodes = []M{}, []M{}
+	for _, o := range r.parked {
+		ev := M{"mode": c15State(o.d)["mode"], "find": r.findAll(o.d)}
+		ev["links"] = r.listing(func() ([]*ipld.Link, error) { return o.d.Links(ctx) })
+		if root, err := o.d.GetNode(); err != nil {
+			ev["cid"] = "err:" + err.Error()
+		} else {
+			ev["cid"] = c15Same(root.Cid().KeyString(), o.cid0)
+		}
+		others = append(others, ev)
+	}
+	for _, n := range r.nodes {
+		ev := M{"cid": c15Same(n.nd.Cid().KeyString(), n.cid0)}
+		ev["links"] = r.listing(func() ([]*ipld.Link, error) { return c15NodeLinks(ctx, r.ds, n.nd) })
+		nodes = append(nodes, ev)
+	}
+	return others, nodes
+}
+
+// c15NodeLinks reads the entries a root node shows: the dag-pb links of a basic directory node; for a
+// HAMT root the listing of a directory loaded from a private copy of it (the node itself is not handed on).
+func c15NodeLinks(ctx context.Context, ds ipld.DAGService, nd ipld.Node) ([]*ipld.Link, error) {
+	pn, ok := nd.(*mdag.ProtoNode)
+	if !ok {
+		return nil, errors.New("not a ProtoNode")
+	}
+	fsn, err := ft.FSNodeFromBytes(pn.Data())
+	if err != nil {
+		return nil, err
+	}
+	if fsn.Type() == ft.TDirectory {
+		return pn.Links(), nil
+	}
+	d, err := NewDirectoryFromNode(ds, pn.Copy())
+	if err != nil {
+		return nil, err
+	}
+	return d.Links(ctx)
 }
 
 func (e *c15Engine) start(wd *c15World, c c15Cfg) (*c15Run, error) {
@@ -517,18 +624,7 @@ func (e *c15Engine) start(wd *c15World, c c15Cfg) (*c15Run, error) {
 	return r, nil
 }
 
-func (r *c15Run) state() M {
-	in := c15Inner(r.d)
-	switch x := in.(type) {
-	case *BasicDirectory:
-		return M{"mode": "basic", "bk": M{"est": x.estimatedSize, "tl": x.totalLinks, "sc": 0},
-			"thr": x.hamtShardingSize, "maxLinks": x.maxLinks, "est": c15EstName(x.GetSizeEstimationMode())}
-	case *HAMTDirectory:
-		return M{"mode": "hamt", "bk": M{"est": 0, "tl": x.totalLinks, "sc": x.sizeChange},
-			"thr": x.hamtShardingSize, "maxLinks": x.maxLinks, "est": c15EstName(x.GetSizeEstimationMode())}
-	}
-	return M{"mode": "?"}
-}
+func (r *c15Run) state() M { return c15State(r.d) }
 
 func (r *c15Run) listing(f func() ([]*ipld.Link, error)) [][]string {
 	res := [][]string{}
@@ -557,20 +653,7 @@ func (r *c15Run) observe(noEach bool) M {
 		}
 		return ls, nil
 	})
-	find := M{}
-	for _, m := range r.wd.names {
-		nd, err := r.d.Find(ctx, r.wd.real[m])
-		switch {
-		case err == nil:
-			l, _ := ipld.MakeLink(nd)
-			find[m] = r.wd.target(nd.Cid(), l.Size)
-		case errors.Is(err, os.ErrNotExist):
-			find[m] = "-"
-		default:
-			find[m] = "!" + err.Error()
-		}
-	}
-	ev["find"] = find
+	ev["find"] = r.findAll(r.d)
 	if noEach {
 		ev["each"] = ev["links"]
 		ev["obs"] = "noeach"
@@ -624,6 +707,8 @@ func (r *c15Run) observe(noEach bool) M {
 		}
 	}
 	ev["shards"], ev["vals"] = shards, vals
+	// independence: every other live object / retained node, re-observed after this step
+	ev["others"], ev["nodes"] = r.observeOthers()
 	return ev
 }
 
@@ -632,8 +717,9 @@ func (r *c15Run) observe(noEach bool) M {
 func (r *c15Run) step(op, n, t string, noEach bool) {
 	defer func() {
 		if p := recover(); p != nil {
-			name := map[string]string{"A": "AddChild", "R": "RemoveChild", "L": "Reload"}[op]
-			vEmit(M{"ev": name, "n": n, "t": t, "err": fmt.Sprint("panic: ", p), "mode": "?", "thr": 0, "maxLinks": 0,
+			name := map[string]string{"A": "AddChild", "R": "RemoveChild", "L": "Reload", "F": "Fork", "S": "Focus"}[op]
+			vEmit(M{"ev": name, "n": n, "t": t, "via": n, "k": 0, "others": []M{}, "nodes": []M{},
+				"err": fmt.Sprint("panic: ", p), "mode": "?", "thr": 0, "maxLinks": 0,
 				"est": "?", "bk": M{"est": 0, "tl": 0, "sc": 0}, "links": [][]string{}, "each": [][]string{},
 				"async": [][]string{}, "reload": [][]string{}, "find": M{}, "cidIs": "?", "cidDyn": "na",
 				"shards": [][]int{}, "vals": [][]any{}})
@@ -671,6 +757,41 @@ func (r *c15Run) step(op, n, t string, noEach bool) {
 		}
 		ev = r.observe(noEach)
 		ev["ev"], ev["err"] = "Reload", c15Err(err)
+	case "F":
+		// a second live directory loaded from the root node of this one: the old object is parked (still
+		// referenced, re-observed from now on), the node it was loaded from is retained, the calls go to the copy
+		root, err := r.d.GetNode()
+		if err == nil {
+			var d2 Directory
+			var nd ipld.Node
+			d2, nd, err = c15LoadVia(ctx, r.ds, root, r.c, n)
+			if err == nil {
+				ent2 := map[string]string{}
+				for k, v := range r.ent {
+					ent2[k] = v
+				}
+				r.parked = append(r.parked, &c15Obj{d: r.d, ent: r.ent, cid0: root.Cid().KeyString()})
+				r.nodes = append(r.nodes, &c15Node{nd: nd, cid0: nd.Cid().KeyString()})
+				r.d, r.ent = d2, ent2
+			}
+		}
+		ev = r.observe(noEach)
+		ev["ev"], ev["via"], ev["err"] = "Fork", n, c15Err(err)
+	case "S":
+		// the calls go to parked object k from now on; the object used so far is parked in its place
+		k, err := strconv.Atoi(n)
+		if err != nil || k < 1 || k > len(r.parked) {
+			panic(fmt.Sprint("bad focus index ", n))
+		}
+		o := r.parked[k-1]
+		cur := &c15Obj{d: r.d, ent: r.ent, cid0: "err"}
+		if root, err := r.d.GetNode(); err == nil {
+			cur.cid0 = root.Cid().KeyString()
+		}
+		r.parked[k-1] = cur
+		r.d, r.ent = o.d, o.ent
+		ev = r.observe(noEach)
+		ev["ev"], ev["k"], ev["err"] = "Focus", k, ""
 	default:
 		panic(op)
 	}
@@ -773,10 +894,14 @@ func c15Random(t *testing.T, e *c15Engine) {
 		for i := 0; i < length; i++ {
 			n := wd.names[rng.Intn(len(wd.names))]
 			switch x := rng.Intn(20); {
-			case x < 10:
+			case x < 9:
 				r.step("A", n, []string{"T1", "T1", "T2"}[rng.Intn(3)], rng.Intn(4) == 0)
-			case x < 18:
+			case x < 16:
 				r.step("R", n, "-", rng.Intn(4) == 0)
+			case x < 18 && len(r.parked) < 2: // a further live object (spec: MaxParked = 2)
+				r.step("F", []string{"node", "store"}[x-16], "-", rng.Intn(4) == 0)
+			case x == 19 && len(r.parked) > 0:
+				r.step("S", strconv.Itoa(1+rng.Intn(len(r.parked))), "-", rng.Intn(4) == 0)
 			default:
 				r.step("L", "-", "-", rng.Intn(4) == 0)
 			}
